@@ -349,6 +349,39 @@ def runtime_part(run, tier, seed):
                     if not all(abs(g - w) <= 1e-12 * max(1, abs(w)) for g, w in zip(got, want)):
                         run.violation(NAME + name + ".documented_parameters", "%s on shape %s passed %s to np.random.%s, documented %s" % (name, shape, got, dist, want),
                                       key={"initialiser": name, "distribution": dist}, replay={"shape": list(shape), "passed": got, "documented": want})
+        # the CONTEXT of the call: inside no_grad() (the PyTorch idiom for re-initialisation), inside retain_grads(), on Parameters, for both values of the flag;
+        # identity, shape, dtype and requires_grad are kept in each, also by reset_parameters() of the layers
+        import contextlib
+        tm = sys.modules["synapgrad.tensor"]
+        from synapgrad.nn.modules import Parameter
+        every = [("uniform_", lambda t: init.uniform_(t, -0.5, 2.0)), ("normal_", lambda t: init.normal_(t, 1.0, 0.25)), ("constant_", lambda t: init.constant_(t, 3.5)),
+                 ("ones_", init.ones_), ("zeros_", init.zeros_), ("xavier_uniform_", init.xavier_uniform_), ("xavier_normal_", init.xavier_normal_),
+                 ("kaiming_uniform_", init.kaiming_uniform_), ("kaiming_normal_", init.kaiming_normal_)]
+        contexts = [("no_grad", tm.no_grad), ("retain_grads", tm.retain_grads), ("plain", contextlib.nullcontext)]
+        for (name, fn), (cname, ctx), flag, cls, dt in itertools.product(every, contexts, (True, False), (Tensor, Parameter), (np.float32, np.float64)):
+            t = cls(np.full((3, 4), 7.0, dtype=dt), requires_grad=flag)
+            run.rt(("context", name, cname, flag, cls.__name__, np.dtype(dt).name))
+            with ctx():
+                r = fn(t)
+            if not (r is t and t.shape == (3, 4) and t.data.dtype == dt and t.requires_grad is flag and type(t) is cls):
+                run.violation(NAME + name + ".keeps_identity_shape_dtype_flag", "%s on a %s %s with requires_grad=%s inside %s: identity=%s shape=%s dtype=%s requires_grad=%s type=%s" %
+                              (name, np.dtype(dt).name, cls.__name__, flag, cname, r is t, t.shape, t.data.dtype, t.requires_grad, type(t).__name__),
+                              key={"initialiser": name, "context": cname, "flag": flag}, replay={"initialiser": name, "context": cname, "requires_grad": flag, "class": cls.__name__})
+        for mk in (lambda: nn.Linear(4, 3), lambda: nn.Conv1d(2, 3, 2), lambda: nn.Conv2d(2, 3, 2), lambda: nn.BatchNorm1d(3), lambda: nn.BatchNorm2d(3)):
+            for cname, ctx in contexts[:2]:
+                L = mk()
+                if not hasattr(L, "reset_parameters"):
+                    continue
+                before = [(p, p.requires_grad, p.shape, p.data.dtype) for p in L.parameters()]
+                run.rt(("context-layer", type(L).__name__, cname))
+                with ctx():
+                    L.reset_parameters()
+                after = L.parameters()
+                if len(after) != len(before) or any(q is not p or q.requires_grad is not f or q.shape != sh or q.data.dtype != d_ for q, (p, f, sh, d_) in zip(after, before)):
+                    run.violation("synapgrad.nn.layers.%s.reset_parameters.keeps_identity_shape_dtype_flag" % type(L).__name__,
+                                  "%s.reset_parameters() inside %s: parameters before %s, after %s" % (type(L).__name__, cname, [(f, sh, str(d_)) for _, f, sh, d_ in before],
+                                                                                                  [(q.requires_grad, q.shape, str(q.data.dtype)) for q in after]),
+                                  key={"layer": type(L).__name__, "context": cname}, replay={"layer": type(L).__name__, "context": cname})
         # sample statistics (sanity check of the assumed NumPy law), 10^5 draws
         t = Tensor(np.zeros((200, 500), dtype=np.float64))
         n = t.data.size
